@@ -621,3 +621,96 @@ def courts_and_strings(payload):
             for string in [k] + list(src.get("variations") or []):
                 journals.append({"string": string, "key": k, "minimal": admits_minimal(tpls, string)})
     return {"courts": list(cs.values()), "reporters": reporters, "laws": laws, "journals": journals}
+
+
+def run_steps(payload):
+    """Step-level records for Trace_ExtractSteps.tla (needs the guarded hook: EYECITE_VERIF=1)."""
+    from eyecite import _verif, get_citations
+    from eyecite.helpers import process_parenthetical
+    from eyecite.models import (CitationToken, FullCaseCitation, FullJournalCitation, FullLawCitation, IdCitation,
+                                ParagraphToken, ReferenceCitation, ShortCaseCitation, StopWordToken, SupraCitation, Token)
+    from eyecite.tokenizers import default_tokenizer
+    res = []
+    if not _verif.ENABLED:
+        return [{"hooks": False, "cites": [], "raised": ""} for _ in payload["items"]]
+    for it in payload["items"]:
+        text = it["text"]
+        o = {"hooks": True, "cites": [], "raised": "", "text": text}
+        try:
+            words, _ = default_tokenizer.tokenize(text)
+            absw = []
+            for w in words:
+                if isinstance(w, ParagraphToken):
+                    k = "para"
+                elif isinstance(w, StopWordToken):
+                    k = "stopv" if w.groups.get("stop_word") == "v" else "stop"
+                elif isinstance(w, CitationToken):
+                    k = "cite"
+                elif isinstance(w, Token):
+                    k = "oth"
+                else:
+                    k = "w"
+                absw.append({"k": k, "n": len(str(w)), "semi": k not in ("stop", "stopv") and str(w).endswith(";")})
+            del _verif.EVENTS[:]
+            cs = get_citations(text)
+            events = list(_verif.EVENTS)
+            del _verif.EVENTS[:]
+            for c in cs:
+                if isinstance(c, ReferenceCitation):
+                    continue
+                form = ("full" if isinstance(c, FullCaseCitation) else "short" if isinstance(c, ShortCaseCitation)
+                        else "supra" if isinstance(c, SupraCitation) else "id" if isinstance(c, IdCitation)
+                        else "law" if isinstance(c, FullLawCitation) else "journal" if isinstance(c, FullJournalCitation) else None)
+                if form is None:
+                    continue
+                i = c.index
+                fev = next((e for e in events if e["forward"] and e["start_index"] == i + 1), None)
+                bevs = [e for e in events if not e["forward"] and e["start_index"] == i - 1]
+                # a full case citation's backward event is add_pre_citation's; short / supra have the antecedent one
+                bev = bevs[-1] if bevs else None
+                fwd = {"present": fev is not None, "matched": False, "mend": 0, "pin": 0, "pins": 0, "raw": -1, "proc": -1,
+                       "wlen": 0, "pre": 0, "strings": True}
+                if fev:
+                    fwd.update(wlen=len(fev["text"]), pre=fev["prefix_len"], strings=fev["strings_only"], matched=fev["span"] is not None)
+                    if fev["span"] is not None:
+                        fwd["mend"] = fev["span"][1]
+                        g = fev["groups"]
+                        if g.get("pin_cite", [-1, -1])[0] >= 0:
+                            ptxt = fev["text"][g["pin_cite"][0]:g["pin_cite"][1]]
+                            fwd["pin"] = len(ptxt)
+                            fwd["pins"] = len(ptxt.rstrip(", "))
+                        if g.get("parenthetical", [-1, -1])[0] >= 0:
+                            raw = fev["text"][g["parenthetical"][0]:g["parenthetical"][1]]
+                            proc = process_parenthetical(raw)
+                            fwd["raw"] = len(raw)
+                            fwd["proc"] = len(proc) if isinstance(proc, str) else -1
+                back = {"present": bev is not None, "matched": False, "mlen": 0, "pin": False, "wlen": 0}
+                if bev:
+                    back.update(wlen=len(bev["text"]), matched=bev["span"] is not None)
+                    if bev["span"] is not None:
+                        back["mlen"] = bev["span"][1] - bev["span"][0]
+                        g = bev["groups"]
+                        back["pin"] = g.get("pin_cite", [-1, -1])[0] >= 0 and g["pin_cite"][1] > g["pin_cite"][0]
+                # stripped characters of the joined plaintiff text (words[index-2:index] of the stop word)
+                lead = trail = 0
+                if form == "full":
+                    for j in range(i - 1, max(i - 28, -1), -1):
+                        w = words[j]
+                        if isinstance(w, StopWordToken):
+                            if w.groups.get("stop_word") == "v" and j > 0:
+                                joined = "".join(str(x) for x in words[max(j - 2, 0):j])
+                                lead = len(joined) - len(joined.lstrip("( "))
+                                trail = len(joined.lstrip("( ")) - len(joined.strip("( "))
+                            break
+                        if str(w) != "," and str(w).endswith(";"):
+                            break
+                s, e = c.span()
+                fs, fe = c.full_span()
+                ps, pe = c.span_with_pincite()
+                o["cites"].append({"form": form, "idx": i + 1, "ts": c.token.start, "te": c.token.end, "words": absw,
+                                   "obs": {"s": s, "e": e, "fs": fs, "fe": fe, "ps": ps, "pe": pe},
+                                   "fwd": fwd, "back": back, "lead": lead, "trail": trail})
+        except Exception as ex:  # noqa: BLE001
+            o["raised"] = f"{type(ex).__name__}: {ex}"[:300]
+        res.append(o)
+    return res
